@@ -121,13 +121,13 @@ func (env *Env) run(c *Case) *Result {
 			return res
 		}
 		base = filepath.Join(env.Scratch, fmt.Sprintf("j%d", env.seq))
-		os.RemoveAll(base)
+		ReleaseJail(base)
 		if err := makeJail(base, c.FS); err != nil {
 			res.Infra = "jail: " + err.Error()
-			os.RemoveAll(base)
+			ReleaseJail(base)
 			return res
 		}
-		defer os.RemoveAll(base)
+		defer ReleaseJail(base)
 		target = filepath.Join(base, JailTarget)
 		if c.FS.ParentIsFile {
 			target = filepath.Join(target, "sub")
